@@ -394,6 +394,8 @@ def main():
     args = ap.parse_args()
     try:
         runner.warm_import()
+        # every run is forked from a pristine zygote created here, before anything else happens
+        runner.make_zygotes(4 if args.selftest else (1 if args.replay else args.workers))
         if args.selftest:
             return selftest()
         if args.pid is None:
@@ -410,6 +412,9 @@ def main():
     except runner.HarnessError as exc:
         print("HARNESS-ERROR", exc)
         return 2
+    finally:
+        for z in list(runner.ZYGOTES) + ([runner.MAIN_ZYGOTE] if runner.MAIN_ZYGOTE else []):
+            z.close()
 
 
 if __name__ == "__main__":
